@@ -107,12 +107,14 @@ SeqRange(s) == {s[i] : i \in 1..Len(s)}
 SameBag(s, t) == Len(s) = Len(t) /\ \A x \in SeqRange(s) : Count(x, s) = Count(x, t)
 
 \* ------------------------------------------------------------- predicates
-\* expr.Compare on a null operand is false, on a missing operand an error
-\* (the record is dropped by where / not matched by a switch case).
+\* Comparison with a literal (compileConstCompare -> expr.Comparison): a null
+\* operand compares like the zero value, a missing operand is an error (the
+\* record is dropped by where / not matched by a switch case).
+Num(x) == IF x.t = "null" THEN 0 ELSE x.n
 PredT(p, v) ==
-  CASE p = "a>0"    -> LET x == Get(v, "a") IN x.t = "int" /\ x.n > 0
-    [] p = "b<2"    -> LET x == Get(v, "b") IN x.t = "int" /\ x.n < 2
-    [] p = "!(a>0)" -> LET x == Get(v, "a") IN x.t = "null" \/ (x.t = "int" /\ ~(x.n > 0))
+  CASE p = "a>0"    -> LET x == Get(v, "a") IN x.t \in {"int", "null"} /\ Num(x) > 0
+    [] p = "b<2"    -> LET x == Get(v, "b") IN x.t \in {"int", "null"} /\ Num(x) < 2
+    [] p = "!(a>0)" -> LET x == Get(v, "a") IN x.t \in {"int", "null"} /\ ~(Num(x) > 0)
     [] p = "true"   -> TRUE
 AllT(ps, v) == \A i \in 1..Len(ps) : PredT(ps[i], v)
 
